@@ -146,6 +146,16 @@ def wrapper_shape(t) -> str:
     return "S" if nt.name in ("Int", "Float", "String", "Boolean", "ID") else "C"
 
 
+def schema_reach(gs, t, acc=None):
+    """input object types reachable from named type t through input fields"""
+    acc = set() if acc is None else acc
+    if isinstance(t, GraphQLInputObjectType) and t.name not in acc:
+        acc.add(t.name)
+        for f in t.fields.values():
+            schema_reach(gs, get_named_type(f.type), acc)
+    return acc
+
+
 def model_err_to_exc(e):
     return {"ValidationError": "ValidationError", "AttributeError": "AttributeError", "NameError": "NameError",
             "SyntaxError": "SyntaxError"}.get(e, e)
@@ -409,7 +419,7 @@ def run_case(g, thorough: bool) -> Case:
                         what = (f"schema-valid value refused when built by {how}: input {tn}, "
                                 f"{rr['exc'][0]}: {rr['exc'][1][:200]}")
                         kw = dict(input_type=tn, value=v, by=how, observed=rr["exc"], coerced=lib_v)
-                        if iv.f21_null(t, v):
+                        if iv.f21_null(t, v) and rr["exc"][0] == "ValidationError" and "input_value=None" in rr["exc"][1]:
                             cs.finding(F21, what, **kw)
                         elif touches & collide:
                             cs.finding(F18, what, **kw)
@@ -463,8 +473,8 @@ def run_case(g, thorough: bool) -> Case:
                 cs.c("k3_defaults_read")
                 node = f.ast_node.default_value
                 cls = default_class(f.type, node)
-                if tn in collide:
-                    cls = cls or F18
+                if tn in collide or (schema_reach(gs, get_named_type(f.type)) & collide):
+                    cls = cls or F18   # the default instantiates a class with colliding field names
                 if cls is None and isinstance(get_named_type(f.type), GraphQLInputObjectType) \
                         and cs.stream_class() and cs.stream_class() != F18:
                     cls = cs.stream_class()   # object default whose class carries the stream's bad default
